@@ -2482,8 +2482,16 @@ func runDecode(c *Ctx) error {
 	}
 	timed("child")
 	defer timed("oracle")
-	return diffBatch(c, "decode", cases, nil)
+	return diffBatch(c, "decode", cases, decodeNorm)
 }
+
+// decodeNorm: the meter q= counts the calls of stream.IsEncrypted() the decoder makes -- how many of
+// them one string costs is an internal matter of the library (caching the answer, asking once per
+// message, is behaviour-preserving). The count stays in the recorded lines for the reader and is
+// bounded by the property oracle (C13:steps, C13:spin); it is not part of the model comparison.
+var reDecodeQ = regexp.MustCompile(` q=[0-9]+`)
+
+func decodeNorm(s string) string { return reDecodeQ.ReplaceAllString(s, "") }
 
 // progressBuf: a buffer a child's output is copied into while the parent watches its length.
 type progressBuf struct {
